@@ -93,7 +93,9 @@ def run(cx):
     cx.rule("C18.R7", "close detection precedes reading: in WatchClose::read the data descriptor is read only after the scan for hang-up/error events of both descriptors found nothing, and a hang-up is reported as BrokenPipe")
     cx.rule("C18.R8", "the relay of one call ends with the reply that ends it: after a reply was parsed the bridge goes back to reading the service exactly when reply.continues == Some(true) (absent and Some(false) both end the call) — evaluated with the member seeded absent / Some(false) / Some(true)")
     cx.rule("C18.R9", "an upgraded session starts flowing at once in both directions: between the relay of the upgrade reply and the start of the two copy threads the bridge does not block in a read (bytes already buffered are taken with BufReader::buffer(), which never waits) — otherwise what the service says first is withheld until the client speaks")
-    r1(cx); r2(cx); r3(cx); r4(cx); r5(cx); r6(cx); r7(cx); r7_level(cx); r8(cx); r9(cx)
+    cx.rule("C18.R10", "only service-info queries are redirected: the bridge rewrites the method of a request (to the resolver's GetInfo) only behind an equality test against a literal of the org.varlink.service interface — a method that merely happens to be called GetInfo on some other interface goes to its own service")
+    cx.rule("C18.R11", "an interrupted read is retried, not taken for the end of the stream: in proxy::copy the edge on which the read error's kind equals Interrupted leads back to a read on every path before the function can return (EINTR from epoll_wait after SIGSTOP/SIGCONT must not tear the session down)")
+    r1(cx); r2(cx); r3(cx); r4(cx); r5(cx); r6(cx); r7(cx); r7_level(cx); r8(cx); r9(cx); r10(cx); r11(cx)
 
 
 def r1(cx):
@@ -528,3 +530,66 @@ def r9(cx):
                      "%s (%s) stands between the relayed upgrade reply and the start of the copy threads: the bridge waits for the client although the service may speak first" % (late[0].callee.name if late else "", late[0].sp if late else ""),
                      note_ok="no blocking read between the reply relay and the copy threads")
     cx.floor("C18.R9", "copy-thread spawns behind a reply relay", n, 2)
+
+
+def r10(cx):
+    from vlib.cfg import const_strings
+    from vlib.cond import bool_edges
+    n = 0
+    for body in cx.mir.bodies(PKG):
+        if body.promoted is not None or "proxy.rs" not in body.sp or body.kind == "Closure": continue
+        writes = [st for st in body.stmts() if st.kind == "assign" and st.lhs.p and st.lhs.fields()[-1:] == ["method"] and "Request" in body.ty(ref_base(DefUse(body), st.lhs.l)[0])]
+        if not writes: continue
+        cx.saw(body)
+        cfg = Cfg(body); du = DefUse(body); sl = Slice(body, du, extra_pass=("=as_ref", "=deref", "=as_str", "=borrow"))
+        svc_edges = []
+        for b in body.blocks:
+            if b.cleanup or b.term.kind != "switch": continue
+            c = switch_cond(body, du, b.term)
+            if c.kind == "call" and c.term.callee.name in ("eq", "ne") and len(c.term.args) == 2:
+                lits = [x for a in c.term.args for x in ([a.cstr()] if a.is_const and a.cstr() else const_strings(body, sl, a))]
+                if any(isinstance(x, str) and (x == "org.varlink.service" or x.startswith("org.varlink.service.")) for x in lits):
+                    te, fe = bool_edges(b.term, c)
+                    svc_edges.append(te if c.term.callee.name == "eq" else fe)
+        for i, st in enumerate(writes):
+            n += 1
+            good = any(cfg.edge_dominates(e, st.bb) for e in svc_edges)
+            cx.check(good, "C18.R10", "%s:%s:method-rewrite#%d" % (PKG, body.path, i), "%s %s" % (st.sp, body.path),
+                     "the request's method is rewritten without having been compared with a literal of org.varlink.service: a call to another interface's own method (e.g. `org.example.a.GetInfo`) is answered by the resolver instead of the service",
+                     note_ok="rewritten only behind `== \"org.varlink.service..\"`")
+    cx.floor("C18.R10", "method rewrites in proxy.rs", n, 1)
+
+
+def r11(cx):
+    from vlib.cond import bool_edges
+    from vlib.facts import promoted_body
+    body = cx.mir.one(PKG, "proxy::copy")
+    cx.saw(body)
+    cfg = Cfg(body); du = DefUse(body); sl = Slice(body, du)
+    reads = {t.bb for t in body.calls("=read")}
+    def is_interrupted(op):
+        for k, o in sl.origins(op, follow_agg=False):
+            if k == "agg" and isinstance(o.agg, dict) and o.agg.get("variant") == "Interrupted": return True
+            if k == "const":
+                c = o.const or {}
+                if "Interrupted" in str(c.get("val", "")): return True
+                dbg = str(c.get("dbg", "") or "")
+                if "promoted[" in dbg:
+                    pb = promoted_body(body, dbg)
+                    if pb is not None and any((st.kind == "assign" and st.rv == "agg" and isinstance(st.agg, dict) and st.agg.get("variant") == "Interrupted") or
+                                              any(oo.is_const and "Interrupted" in str((oo.const or {}).get("val", "")) for oo in (st.ops if st.kind == "assign" else [])) for st in pb.stmts()): return True
+        return False
+    edges = []
+    for b in body.blocks:
+        if b.cleanup or b.term.kind != "switch": continue
+        c = switch_cond(body, du, b.term)
+        if c.kind == "call" and c.term.callee.name in ("eq", "ne") and len(c.term.args) == 2:
+            a0, a1 = c.term.args
+            for x, y in ((a0, a1), (a1, a0)):
+                if any(k == "call" and o.callee.name == "kind" for k, o in sl.origins(x)) and is_interrupted(y):
+                    te, fe = bool_edges(b.term, c)
+                    edges.append(te if c.term.callee.name == "eq" else fe)
+    good = bool(edges) and bool(reads) and all(cfg.must_pass_after(e, cfg.returns(), reads) for e in edges)
+    cx.check(good, "C18.R11", "%s:proxy::copy:interrupted-read-is-retried" % PKG, body.sp,
+             "%s" % ("no test of the read error against ErrorKind::Interrupted" if not edges else "after `kind() == Interrupted` copy() can return without reading again: an interrupted wait ends the bridged session although neither side closed"),
+             note_ok="Interrupted -> read again")
